@@ -287,7 +287,7 @@ class Episode:
                     ask = inp.real("ask_%d_%d" % (i, k), 1e-3, 1e6)
                     c.assume(bid <= ask)
                 else:
-                    mid = 100.0 + 10 * i + 50 * k
+                    mid = 100.0 + 10 * i + 50 * k + (3.0 if inp.prefix else 0.0)     # distinct per environment
                     spread = cfg.get("spread", 0.0)
                     bid, ask = mid - spread / 2, mid + spread / 2
                 ev = EventNBBO(self.T[i], con, bid, ask)
